@@ -236,6 +236,28 @@ func dialVia(sc *tnScenario, addr string) (net.Conn, error) {
 			return nil, fmt.Errorf("harness: ParseURL: %v", err)
 		}
 		return dl.DialURL(tu)
+	case "urlctx-dialer", "urlctx-param", "urlctx-cancel":
+		u := &url.URL{Scheme: "telnet", Host: addr, Path: "/wl2k", User: url.UserPassword(call, pw)}
+		dl := telnet.Dialer{}
+		if sc.Via == "urlctx-param" {
+			u.RawQuery = "dial_timeout=" + fmt.Sprintf("%dms", 10*sc.DeadlineMs+3000)
+		} else {
+			dl.Timeout = 10*d + 3*time.Second
+		}
+		tu, err := transport.ParseURL(u.String())
+		if err != nil {
+			return nil, fmt.Errorf("harness: ParseURL: %v", err)
+		}
+		if sc.Via == "urlctx-cancel" {
+			ctx, cancel := context.WithCancel(context.Background())
+			t := time.AfterFunc(d, cancel)
+			defer t.Stop()
+			defer cancel()
+			return dl.DialURLContext(ctx, tu)
+		}
+		ctx, cancel := context.WithTimeout(context.Background(), d)
+		defer cancel()
+		return dl.DialURLContext(ctx, tu)
 	case "background":
 		return telnet.DialContext(context.Background(), addr, call, pw)
 	default: // ctx-deadline
@@ -798,7 +820,9 @@ func timedChunks(parts [][]byte, startMs, gapMs int) []tnChunk {
 	return out
 }
 
-var tnVias = []string{"ctx-deadline", "timeout", "ctx-cancel", "url", "dialer"}
+// "urlctx-*": Dialer.DialURLContext with a caller context that expires BEFORE the dialer's own timeout
+// (Dialer.Timeout resp. dial_timeout are 10x longer): the earlier of the two must win
+var tnVias = []string{"ctx-deadline", "timeout", "ctx-cancel", "url", "dialer", "urlctx-dialer", "urlctx-param", "urlctx-cancel"}
 
 func tnURLSafe(b []byte) bool {
 	for _, c := range b {
@@ -813,7 +837,7 @@ func tnURLSafe(b []byte) bool {
 func genClientScenarios(r *rand.Rand, n int) []*tnScenario {
 	var out []*tnScenario
 	add := func(s *tnScenario) {
-		if (s.Via == "url" || s.Via == "dialer") && !(tnURLSafe(s.call()) && tnURLSafe(s.pw())) {
+		if (s.Via == "url" || s.Via == "dialer" || strings.HasPrefix(s.Via, "urlctx-")) && !(tnURLSafe(s.call()) && tnURLSafe(s.pw())) {
 			s.Via = "ctx-deadline"
 		}
 		if s.DeadlineMs == 0 {
@@ -855,6 +879,10 @@ func genClientScenarios(r *rand.Rand, n int) []*tnScenario {
 		{Class: "silent", CallHex: hx0(c), PwHex: hx0(p), Via: "ctx-cancel", DeadlineMs: 150, End: "silent"},
 		{Class: "silent", CallHex: hx0(c), PwHex: hx0(p), Via: "url", DeadlineMs: 120, End: "silent"},
 		{Class: "silent", CallHex: hx0(c), PwHex: hx0(p), Via: "dialer", DeadlineMs: 120, End: "silent"},
+		{Class: "silent", CallHex: hx0(c), PwHex: hx0(p), Via: "urlctx-dialer", DeadlineMs: 120, End: "silent"},
+		{Class: "silent", CallHex: hx0(c), PwHex: hx0(p), Via: "urlctx-param", DeadlineMs: 150, End: "silent"},
+		{Class: "partial-prompt", CallHex: hx0(c), PwHex: hx0(p), Via: "urlctx-cancel", DeadlineMs: 150, End: "silent",
+			Chunks: []tnChunk{{At: 0, Data: []byte("Callsi")}}},
 		{Class: "partial-prompt", CallHex: hx0(c), PwHex: hx0(p), Via: "timeout", DeadlineMs: 150, End: "silent",
 			Chunks: []tnChunk{{At: 0, Data: []byte("Callsi")}}},
 		{Class: "partial-prompt", CallHex: hx0(c), PwHex: hx0(p), Via: "timeout", DeadlineMs: 200, End: "silent",
